@@ -15,6 +15,10 @@ Modes (input.mode):
   malformed arbitrary / mutated bytes: only "no panic" and "accepted ⇒ all rules".
   gcstress  repeated decodes of the zero-fill crash witness while the GC runs: no crash.
   encstress concurrent Encode calls: every caller still holds the bytes it was given.
+  decstress concurrent Decode calls (long overlapping block histories; outcomes): sequential answers, no crash.
+In valid / violate / lenient mode the same bytes are decoded again after the first result has been
+overwritten (`impl.again`, `impl.back` = the model's answer) and under a second (utg, wg) pair
+(`impl.alt` = the model's answer under `altUtg` / `altWg`).
 In valid / violate mode the harness keeps the first encoding while a second message of the
 same length is encoded and reports in `impl.alias` if the kept bytes (or, after the input
 buffer has been overwritten, the decoded value) changed.
@@ -185,6 +189,47 @@ def implAnswer {α} (ops : Ops α) (impl : Json) : R (Answer α) := do
   | some r => return .rejected r
   | none => throw s!"unknown error class {e}"
 
+/-- the second (utg, wg) pair of a run, derived from the first exactly as the
+harness does (`c15UtgAlt`, `c15WgAlt`): condition and log swap, work ids get a prefix -/
+def altUtg (utg : String → UpkeepType) (uid : String) : UpkeepType :=
+  match utg uid with
+  | .condition => .log
+  | .log => .condition
+  | .other => .other
+
+def altWg (wg : String → Trigger → String) (uid : String) (t : Trigger) : String := "alt:" ++ wg uid t
+
+/-- a repeated answer (`impl.again` / `alt` / `back`); `same` = the value of the first answer -/
+def repeatAnswer {α} (ops : Ops α) (impl : Json) (name : String) (first : Answer α) : R (Option (Answer α)) := do
+  match fieldD impl name .null with
+  | .null => pure none
+  | j =>
+    if (fieldD j "same" (.bool false)) == .bool true then
+      match first with
+      | .accepted v => pure (some (.accepted v))
+      | _ => throw s!"{name}: `same` without an accepted first answer"
+    else pure (some (← implAnswer ops j))
+
+/-- the repeated decodes: `(agree, spec, fail, tags)` — `again` and `back` must be the model's
+answer under the first pair, `alt` the model's answer under the second pair -/
+def checkRepeats {α} [DecidableEq α] (ops : Ops α) (impl : Json) (ia ma ma2 : Answer α)
+    (specOwn : Answer α → Bool) (specAlt : Answer α → Bool) : R (Bool × Bool × String × List String) := do
+  let again ← repeatAnswer ops impl "again" ia
+  let alt ← repeatAnswer ops impl "alt" ia
+  let back ← repeatAnswer ops impl "back" ia
+  let okOwn (a : Option (Answer α)) := match a with | none => true | some a => specOwn a
+  let eqOwn (a : Option (Answer α)) := match a with | none => true | some a => decide (a = ma)
+  let altOk := match alt with | none => true | some a => specAlt a
+  let altEq := match alt with | none => true | some a => decide (a = ma2)
+  let ownOk := okOwn again && okOwn back
+  let fail := if !ownOk then explainRepeat else if !altOk then explainAltPair else ""
+  let tags := (if again.isSome then ["repeat-decode"] else []) ++
+    (match alt with
+      | some (.accepted _) => ["alt-pair:accepted"]
+      | some _ => ["alt-pair:rejected"]
+      | none => [])
+  pure (eqOwn again && eqOwn back && altEq, ownOk && altOk, fail, tags)
+
 def parseTree (impl : Json) : R J := do
   match Json.parse (← strF impl "text") with
   | .ok j => ofJson j
@@ -219,16 +264,20 @@ def handleK {α} [DecidableEq α] (ops : Ops α) (input impl : Json) : R Reply :
     let treeEq := jEqv (ops.toJ x) tree
     let pureRT := decide (ops.fromJ c (ops.toJ x) = some x)
     let sm := specRoundTrip x ma && pureRT
-    let si := specRoundTrip x ia && specRetained alias
-    let agree := decide (ma = ia) && treeEq
+    let ma2 := answerOf (ops.decode c (altUtg utg) (altWg wg) tree)
+    let (rAgree, rSpec, rFail, rTags) ← checkRepeats ops impl ia ma ma2 (specRoundTrip x)
+      (specArbitrary (ops.validate (altUtg utg) (altWg wg)))
+    let si := specRoundTrip x ia && specRetained alias && rSpec
+    let agree := decide (ma = ia) && treeEq && rAgree
     pure { agree := agree, specModel := sm, specImpl := si,
            diff := if agree then "" else
              (if treeEq then "" else "toJson(value) differs from the tree of the Go bytes; ") ++
              s!"model={answerStr ma} impl={answerStr ia}",
-           fail := if si then "" else if alias then explainAlias ++ ": " ++ aliasText else explainRoundTrip ia,
+           fail := if si then "" else if !rSpec then rFail ++ (if alias then ": " ++ aliasText else "")
+                   else if alias then explainAlias ++ ": " ++ aliasText else explainRoundTrip ia,
            nontrivial := decide (ops.size x ≥ 1),
            tags := [s!"{kind}:valid"] ++ (ops.shape x).map (fun s => s!"{kind}:{s}") ++
-                   (if ops.wf x then [] else ["ill-formed-input"]) ++ crashTags }
+                   (if ops.wf x then [] else ["ill-formed-input"]) ++ rTags.map (fun t => s!"{kind}:{t}") ++ crashTags }
   | "violate" =>
     let x ← ops.dec (← field input kind)
     let want ← strF input "rule"
@@ -237,29 +286,37 @@ def handleK {α} [DecidableEq α] (ops : Ops α) (input impl : Json) : R Reply :
     let mv := ops.validate utg wg x
     let treeEq := jEqv (ops.toJ x) tree
     let sm := specRejected ma && !mv.isOk
-    let si := specRejected ia && specRetained alias
-    let agree := decide (ma = ia) && answerStr ma == want && treeEq
+    let ma2 := answerOf (ops.decode c (altUtg utg) (altWg wg) tree)
+    let (rAgree, rSpec, rFail, rTags) ← checkRepeats ops impl ia ma ma2 specRejected
+      (specArbitrary (ops.validate (altUtg utg) (altWg wg)))
+    let si := specRejected ia && specRetained alias && rSpec
+    let agree := decide (ma = ia) && answerStr ma == want && treeEq && rAgree
     pure { agree := agree, specModel := sm, specImpl := si,
            diff := if agree then "" else s!"rule broken={want} model={answerStr ma} impl={answerStr ia} treeEq={treeEq}",
-           fail := if si then "" else if alias then explainAlias ++ ": " ++ aliasText else explainRejected ia ++ s!" (rule {want})",
+           fail := if si then "" else if !rSpec then rFail ++ s!" (rule {want})"
+                   else if alias then explainAlias ++ ": " ++ aliasText else explainRejected ia ++ s!" (rule {want})",
            nontrivial := true,
            tags := [s!"{kind}:violate", s!"{kind}:rule:{want}"] ++
                    ((ops.shape x).filter (fun t => t == "zero-ext" || t == "repeated-log-upkeep")).map (fun t => s!"{kind}:violate:{t}") ++
-                   crashTags }
+                   rTags.map (fun t => s!"{kind}:violate:{t}") ++ crashTags }
   | "lenient" =>
     let tree ← parseTree impl
     let mu := ops.fromJ c tree
     let iu : Option α ← if (← boolF impl "unmOk") then some <$> ops.dec (← field impl "unm") else pure none
     let ma := answerOf (ops.decode c utg wg tree)
     let sm := specArbitrary (ops.validate utg wg) ma
-    let si := specArbitrary (ops.validate utg wg) ia && specNoCrash ia oob
-    let agree := decide (mu = iu) && decide (ma = ia)
+    let ma2 := answerOf (ops.decode c (altUtg utg) (altWg wg) tree)
+    let (rAgree, rSpec, rFail, rTags) ← checkRepeats ops impl ia ma ma2 (specArbitrary (ops.validate utg wg))
+      (specArbitrary (ops.validate (altUtg utg) (altWg wg)))
+    let si := specArbitrary (ops.validate utg wg) ia && specNoCrash ia oob && rSpec && specRetained alias
+    let agree := decide (mu = iu) && decide (ma = ia) && rAgree
     pure { agree := agree, specModel := sm, specImpl := si,
            diff := if agree then "" else
              s!"unmarshal model={mu.isSome} impl={iu.isSome} equal={decide (mu = iu)}; answer model={answerStr ma} impl={answerStr ia}",
-           fail := if si then "" else if oob then explainOob ++ ": " ++ oobText else explainArbitrary ia,
+           fail := if si then "" else if oob then explainOob ++ ": " ++ oobText
+                   else if !rSpec then rFail else if alias then explainRepeat ++ ": " ++ aliasText else explainArbitrary ia,
            nontrivial := true,
-           tags := [s!"{kind}:lenient", s!"{kind}:lenient:{answerStr ia}"] ++ crashTags }
+           tags := [s!"{kind}:lenient", s!"{kind}:lenient:{answerStr ia}"] ++ rTags.map (fun t => s!"{kind}:lenient:{t}") ++ crashTags }
   | "encstress" =>
     -- concurrent encoders: every goroutine still holds what it encoded
     let si := specRetained alias && specNoCrash ia false
@@ -267,6 +324,13 @@ def handleK {α} [DecidableEq α] (ops : Ops α) (input impl : Json) : R Reply :
            fail := if si then "" else if alias then explainAlias ++ ": " ++ aliasText else explainArbitrary ia,
            nontrivial := true,
            tags := [s!"{kind}:encstress"] ++ crashTags }
+  | "decstress" =>
+    -- concurrent decoders: every answer is the sequential answer, nobody dies
+    let si := specRetained alias && specNoCrash ia false
+    pure { agree := true, specModel := true, specImpl := si,
+           fail := if si then "" else if alias then explainRepeat ++ ": " ++ aliasText else explainArbitrary ia,
+           nontrivial := true,
+           tags := [s!"{kind}:decstress"] ++ crashTags }
   | "gcstress" =>
     -- crash witness of the array zero-fill: repeated decodes while the collector runs
     let si := specNoCrash ia oob
@@ -275,14 +339,15 @@ def handleK {α} [DecidableEq α] (ops : Ops α) (input impl : Json) : R Reply :
            nontrivial := true,
            tags := [s!"{kind}:gcstress"] ++ crashTags }
   | "malformed" =>
-    let si := specArbitrary (ops.validate utg wg) ia && specNoCrash ia oob
+    let si := specArbitrary (ops.validate utg wg) ia && specNoCrash ia oob && specRetained alias
     let cls := match ia with
       | .accepted _ => "accepted"
       | .malformed => "malformed"
       | .rejected _ => "rule"
       | .panicked => "panic"
     pure { agree := true, specModel := true, specImpl := si,
-           fail := if si then "" else if oob then explainOob ++ ": " ++ oobText else explainArbitrary ia,
+           fail := if si then "" else if oob then explainOob ++ ": " ++ oobText
+                   else if alias then explainRepeat ++ ": " ++ aliasText else explainArbitrary ia,
            nontrivial := cls != "malformed",
            tags := [s!"{kind}:arbitrary:{cls}"] ++ crashTags }
   | m => throw s!"unknown mode {m}"
